@@ -1482,7 +1482,7 @@ func ruleHandOverReleasedOnError(c *Ctx, rule string) {
 			}
 			return nil
 		}
-		allInstrs(fn, func(i ssa.Instruction) {
+		deepInstrs(fn, 2, func(i ssa.Instruction) {
 			if call, ok := i.(*ssa.Call); ok {
 				if b, ok := call.Call.Value.(*ssa.Builtin); ok && b.Name() == "close" && len(call.Call.Args) == 1 {
 					if f := isChanLoad(call.Call.Args[0]); f != nil {
@@ -1494,10 +1494,37 @@ func ruleHandOverReleasedOnError(c *Ctx, rule string) {
 		if chanField == nil {
 			continue
 		}
+		// a helper that closes the channel (or finds it nil) on all of its paths
+		var releases func(h *ssa.Function, d int) bool
+		var gen func(f facts, i ssa.Instruction) facts
+		nilEdge := func(f facts, b *ssa.BasicBlock, succ int) facts {
+			for _, a := range edgeAtoms(b, succ) {
+				if a.Nil == 1 && isChanLoad(a.V) == chanField {
+					f = f.with("released")
+				}
+			}
+			return f
+		}
+		releases = func(h *ssa.Function, d int) bool {
+			if h == nil || h.Blocks == nil || d == 0 || h == fn {
+				return false
+			}
+			hf := mustFlow(h, facts{}, gen, nilEdge)
+			all := len(returnsOf(h)) > 0
+			for _, r := range returnsOf(h) {
+				if f, reach := hf.at(r); reach && !f.has("released") {
+					all = false
+				}
+			}
+			return all
+		}
 		// the inner read: a call returning (int, error) whose error is what this Read returns
-		gen := func(f facts, i ssa.Instruction) facts {
+		gen = func(f facts, i ssa.Instruction) facts {
 			if call, ok := i.(*ssa.Call); ok {
 				if b, ok := call.Call.Value.(*ssa.Builtin); ok && b.Name() == "close" && len(call.Call.Args) == 1 && isChanLoad(call.Call.Args[0]) == chanField {
+					return f.with("released")
+				}
+				if h := staticCallee(call); h != nil && inModule(h) && isHelperOf(h, fn, 2) && releases(h, 2) {
 					return f.with("released")
 				}
 			}
@@ -1804,6 +1831,9 @@ func ruleRefusalIsNotTeardown(c *Ctx, rule string) {
 		edge := func(f facts, b *ssa.BasicBlock, succ int) facts {
 			for _, a := range edgeAtoms(b, succ) {
 				if a.True == -1 && isRefusalTest(a.V) {
+					f = f.with("not-refusal")
+				}
+				if call, ok := a.V.(*ssa.Call); ok && a.True == 1 && connFailurePredicate(staticCallee(call)) {
 					f = f.with("not-refusal")
 				}
 			}
